@@ -251,12 +251,17 @@ class Zygote:
     def run(self, world):
         self.p.stdin.write(encode_world(world))
         self.p.stdin.flush()
+        h = self._read_exact(5)
+        if h[0:1] != b"B":
+            raise ZygoteDied("protocol error")
+        blob = self._read_exact(struct.unpack("<I", h[1:])[0])
         frames = []
-        while True:
-            tag, p = self._read_frame()
-            if tag == ".":
-                break
-            frames.append((tag, p))
+        i = 0
+        n = len(blob)
+        while i < n:
+            ln = struct.unpack_from("<I", blob, i + 1)[0]
+            frames.append((chr(blob[i]), blob[i + 5:i + 5 + ln]))
+            i += 5 + ln
         self.runs += 1
         return parse_run(frames)
 
